@@ -777,10 +777,13 @@ void gen_check_outsize(const Tuple& t, Gen& g) {
 // ---- C15: encode_text must not read input beyond maxlen bytes ----
 struct GuardArena {
   unsigned char* base{nullptr};
-  unsigned char* boundary{nullptr};  // first byte of the PROT_NONE page
-  std::size_t page{0};
+  unsigned char* boundary{nullptr};  // first byte of the PROT_NONE region
+  std::size_t guard_len{0};          // length of the inaccessible region
   std::size_t total{0};
 };
+// The inaccessible region spans the largest nominal length used, so that a
+// read at any offset >= maxlen of the nominal range faults inside it.
+constexpr std::uint64_t GUARD_SPAN = std::uint64_t{1} << 31;
 GuardArena g_arena;
 sigjmp_buf g_jb;
 volatile std::sig_atomic_t g_guard_active = 0;
@@ -789,7 +792,7 @@ volatile std::uintptr_t g_fault_addr = 0;
 void segv_handler(int, siginfo_t* si, void*) {
   const auto addr = reinterpret_cast<std::uintptr_t>(si->si_addr);
   const auto lo = reinterpret_cast<std::uintptr_t>(g_arena.boundary);
-  if (g_guard_active && addr >= lo && addr < lo + g_arena.page) {
+  if (g_guard_active && addr >= lo && addr < lo + g_arena.guard_len) {
     g_fault_addr = addr;
     siglongjmp(g_jb, 1);
   }
@@ -800,14 +803,15 @@ void guard_setup() {
   if (g_arena.base != nullptr) return;
   const auto page = static_cast<std::size_t>(sysconf(_SC_PAGESIZE));
   const std::size_t acc_pages = (MAXLEN + page - 1) / page + 1;
-  const std::size_t total = (acc_pages + 1) * page;
-  void* p = mmap(nullptr, total, PROT_READ | PROT_WRITE, MAP_PRIVATE | MAP_ANONYMOUS, -1, 0);
+  const std::size_t guard_len = static_cast<std::size_t>(GUARD_SPAN) + page;
+  const std::size_t total = acc_pages * page + guard_len;
+  void* p = mmap(nullptr, total, PROT_NONE, MAP_PRIVATE | MAP_ANONYMOUS | MAP_NORESERVE, -1, 0);
   if (p == MAP_FAILED) die("mmap failed");
   g_arena.base = static_cast<unsigned char*>(p);
-  g_arena.page = page;
+  g_arena.guard_len = guard_len;
   g_arena.total = total;
   g_arena.boundary = g_arena.base + acc_pages * page;
-  if (mprotect(g_arena.boundary, page, PROT_NONE) != 0) die("mprotect failed");
+  if (mprotect(g_arena.base, acc_pages * page, PROT_READ | PROT_WRITE) != 0) die("mprotect failed");
   struct sigaction sa;
   std::memset(&sa, 0, sizeof sa);
   sa.sa_sigaction = segv_handler;
@@ -817,11 +821,12 @@ void guard_setup() {
 }
 
 // `content` has exactly MAXLEN bytes; it is placed so that it ends at the page
-// boundary and handed to encode_text with nominal length `nominal` > MAXLEN.
+// boundary (everything after it is PROT_NONE) and handed to encode_text with nominal length `nominal` > MAXLEN.
 // Must run on the main thread.
 void gen_check_guard(const std::string& content, std::uint64_t nominal, bool use_sv, Gen& g) {
   if (content.size() != MAXLEN) die("guard: content must have exactly maxlen bytes");
   if (nominal <= MAXLEN) die("guard: nominal length must exceed maxlen");
+  if (nominal > GUARD_SPAN) die("guard: nominal length too large");
   guard_setup();
   unsigned char* const at = g_arena.boundary - MAXLEN;
   std::memcpy(at, content.data(), MAXLEN);
@@ -883,4 +888,1102 @@ void gen_check_guard(const std::string& content, std::uint64_t nominal, bool use
           "C15/text/equal-components-differ", replay, detail);
 }
 
-// PART2-END
+// ---------------------------------------------------------------------------
+// Numeric domains
+// ---------------------------------------------------------------------------
+
+const std::uint8_t ALPHA[6] = {0x00, 0x01, 0x7F, 0x80, 0xFE, 0xFF};
+// Thorough tier, 64-bit types only: a superset alphabet (8^8 = 16,777,216 values).
+const std::uint8_t ALPHA_WIDE[8] = {0x00, 0x01, 0x02, 0x7F, 0x80, 0x81, 0xFE, 0xFF};
+
+// Structured bit patterns of width U: the 6^n byte-alphabet domain, all values
+// with <= 2 bits set or <= 2 bits cleared, +-1 around every power of two.
+template <class U>
+void add_structured(std::vector<U>& v, bool wide) {
+  constexpr int W = static_cast<int>(sizeof(U) * 8);
+  constexpr int NB = static_cast<int>(sizeof(U));
+  const std::uint8_t* const alpha = wide ? ALPHA_WIDE : ALPHA;
+  const std::uint64_t letters = wide ? 8 : 6;
+  std::uint64_t total = 1;
+  for (int i = 0; i < NB; ++i) total *= letters;
+  v.reserve(v.size() + total + 4096);
+  for (std::uint64_t idx = 0; idx < total; ++idx) {
+    std::uint64_t x = idx;
+    U val = 0;
+    for (int i = 0; i < NB; ++i) {
+      val = static_cast<U>(static_cast<U>(val << 8) | alpha[x % letters]);
+      x /= letters;
+    }
+    v.push_back(val);
+  }
+  const U ones = static_cast<U>(~U{0});
+  v.push_back(0);
+  v.push_back(ones);
+  for (int i = 0; i < W; ++i) {
+    const U bi = static_cast<U>(U{1} << i);
+    v.push_back(bi);
+    v.push_back(static_cast<U>(ones ^ bi));
+    v.push_back(static_cast<U>(bi - 1));
+    v.push_back(static_cast<U>(bi + 1));
+    for (int j = i + 1; j < W; ++j) {
+      const U bj = static_cast<U>(U{1} << j);
+      v.push_back(static_cast<U>(bi | bj));
+      v.push_back(static_cast<U>(ones ^ (bi | bj)));
+    }
+  }
+}
+
+// All exponents x both signs x mantissa skeleton (top 4 and bottom 4 mantissa
+// bits free, the middle all zero or all one).
+void add_float_skeleton(std::vector<std::uint32_t>& v) {
+  for (std::uint32_t s = 0; s < 2; ++s)
+    for (std::uint32_t e = 0; e < 256; ++e)
+      for (std::uint32_t top = 0; top < 16; ++top)
+        for (std::uint32_t mid = 0; mid < 2; ++mid)
+          for (std::uint32_t bot = 0; bot < 16; ++bot)
+            v.push_back((s << 31) | (e << 23) | (top << 19) | (mid ? (0x7FFFU << 4) : 0U) | bot);
+}
+void add_double_skeleton(std::vector<std::uint64_t>& v) {
+  for (std::uint64_t s = 0; s < 2; ++s)
+    for (std::uint64_t e = 0; e < 2048; ++e)
+      for (std::uint64_t top = 0; top < 16; ++top)
+        for (std::uint64_t mid = 0; mid < 2; ++mid)
+          for (std::uint64_t bot = 0; bot < 16; ++bot)
+            v.push_back((s << 63) | (e << 52) | (top << 48) |
+                        (mid ? (0xFFFFFFFFFFFULL << 4) : 0ULL) | bot);
+}
+
+// Sort bit patterns in the reference order of T (ties, i.e. NaNs, by bit
+// pattern), remove duplicates.
+template <class T>
+void sort_ref_unique(std::vector<typename Traits<T>::U>& v) {
+  using U = typename Traits<T>::U;
+  std::sort(v.begin(), v.end(), [](U a, U b) {
+    const int r = ref_cmp_num(from_bits<T>(a), from_bits<T>(b));
+    return r != 0 ? r < 0 : a < b;
+  });
+  v.erase(std::unique(v.begin(), v.end()), v.end());
+}
+
+template <class T>
+std::vector<typename Traits<T>::U> structured_domain(bool wide) {
+  using U = typename Traits<T>::U;
+  std::vector<U> v;
+  add_structured<U>(v, wide && sizeof(U) == 8);
+  if constexpr (std::is_same_v<T, float>) add_float_skeleton(v);
+  if constexpr (std::is_same_v<T, double>) add_double_skeleton(v);
+  sort_ref_unique<T>(v);
+  return v;
+}
+
+// Enumeration of a complete type in reference order: rank -> bit pattern.
+// (Only an enumeration order: every adjacent pair is still judged by
+// ref_cmp_num, and a descending step is an internal error.)
+template <class T>
+inline typename Traits<T>::U full_rank_to_bits(std::uint64_t rank) noexcept {
+  using U = typename Traits<T>::U;
+  if constexpr (std::is_same_v<T, float>) {
+    // -inf, negatives by decreasing magnitude, -0, +0, positives, +inf, NaNs
+    constexpr std::uint64_t NEG = 0x7F800001ULL;  // 0xFF800000 down to 0x80000000
+    if (rank < NEG) return static_cast<U>(0xFF800000ULL - rank);
+    rank -= NEG;
+    if (rank < NEG) return static_cast<U>(rank);  // 0x00000000 .. 0x7F800000
+    rank -= NEG;
+    constexpr std::uint64_t NANS = 0x7FFFFFULL;
+    if (rank < NANS) return static_cast<U>(0x7F800001ULL + rank);
+    rank -= NANS;
+    return static_cast<U>(0xFF800001ULL + rank);
+  } else if constexpr (std::is_signed_v<T>) {
+    const auto val = static_cast<T>(static_cast<std::int64_t>(rank) +
+                                    static_cast<std::int64_t>(std::numeric_limits<T>::min()));
+    return to_bits(val);
+  } else {
+    return static_cast<U>(rank);
+  }
+}
+
+// Number of values of a complete type (only used for types of up to 32 bits).
+template <class T>
+constexpr std::uint64_t full_count() noexcept {
+  if constexpr (sizeof(T) >= 8) return 0;
+  else return std::uint64_t{1} << (8 * sizeof(T));
+}
+
+constexpr std::uint64_t WALK_BLOCKS = 1024;  // work units of the value walks
+
+// Small copy of an encoding produced on a fast path.
+struct SmallEnc {
+  unsigned char b[16];
+  std::size_t len{0};
+};
+template <class T>
+inline void fast_enc(T x, SmallEnc& s) {
+  unodb::key_encoder e;
+  e.encode(x);
+  const auto kv = e.get_key_view();
+  s.len = kv.size();
+  if (s.len <= sizeof s.b) std::memcpy(s.b, kv.data(), s.len);
+}
+
+void record_generic(Acc& acc, Gen& g, std::uint64_t k1, std::uint64_t k2, const std::string& prop,
+                    const std::string& dom, const std::string& replay) {
+  acc.transitions += g.calls;
+  if (g.out.empty()) {
+    // The fast path saw a failure that the generic evaluation does not show.
+    g.add("a failure seen during enumeration did not reproduce when the case was re-evaluated",
+          prop + "/" + dom + "/unstable", replay, "{}");
+  }
+  for (auto& v : g.out) {
+    if (!acc.want_more()) break;
+    v.k1 = k1;
+    v.k2 = k2;
+    acc.viols.push_back(std::move(v));
+  }
+}
+
+// C11: walk N values given in reference order, check every adjacent pair.
+template <class T, class F>
+Part c11_walk(const std::string& name, std::uint64_t N, F bits_at, int threads) {
+  Part part;
+  part.name = name;
+  part.size = N;
+  if (N == 0) return part;
+  const std::uint64_t pairs = N - 1;
+  std::vector<Acc> accs(static_cast<std::size_t>(threads));
+  // Fixed blocks (independent of the thread count) dealt out round-robin, so
+  // that every emitted count is the same for any --threads.
+  const std::uint64_t chunk = (pairs + WALK_BLOCKS - 1) / WALK_BLOCKS;
+  const std::uint64_t sample_at = pairs / 2;
+  constexpr Kind K = Traits<T>::kind;
+  parallel(threads, [&](int t) {
+    Acc& acc = accs[static_cast<std::size_t>(t)];
+   for (std::uint64_t blk = static_cast<std::uint64_t>(t); blk < WALK_BLOCKS;
+        blk += static_cast<std::uint64_t>(threads)) {
+    const std::uint64_t lo = std::min(pairs, chunk * blk);
+    const std::uint64_t hi = std::min(pairs, lo + chunk);
+    if (lo >= hi) break;
+    std::uint64_t checks = 0, classes = 0, calls = 0;
+    auto xb = bits_at(lo);
+    T x = from_bits<T>(xb);
+    SmallEnc ex, ey;
+    fast_enc(x, ex);
+    ++calls;
+    for (std::uint64_t p = lo; p < hi; ++p) {
+      const auto yb = bits_at(p + 1);
+      const T y = from_bits<T>(yb);
+      fast_enc(y, ey);
+      ++calls;
+      const int r = ref_cmp_num(x, y);
+      if (r > 0) die("reference enumeration not ascending in " + name);
+      bool ok = ex.len <= sizeof ex.b && ey.len <= sizeof ey.b;
+      if (ok) {
+        const int c1 = lib_compare(ex.b, ex.len, ey.b, ey.len);
+        const int c2 = indep_compare(ex.b, ex.len, ey.b, ey.len);
+        ok = (c1 == r) && (c2 == r);
+      }
+      ++checks;
+      classes += (r < 0) ? 1U : 0U;
+      if (!ok || p == sample_at) {
+        if (!ok) ++acc.vtotal;
+        if ((!ok && acc.want_more()) || p == sample_at) {
+          Gen g;
+          g.want_sample = (p == sample_at);
+          const Tuple ta{make_num(K, xb)}, tb{make_num(K, yb)};
+          gen_check_order(ta, tb, g);
+          if (p == sample_at) acc.sample = g.sample;
+          if (!ok)
+            record_generic(acc, g, p, 0, "C11", kind_name[K],
+                           "order:" + tuple_str(ta) + ":" + tuple_str(tb));
+          else
+            acc.transitions += g.calls;
+        }
+      }
+      x = y;
+      xb = yb;
+      ex = ey;
+    }
+    acc.checks += checks;
+    acc.classes += classes;
+    acc.transitions += calls;
+   }
+  });
+  merge_into(part, accs);
+  part.classes += 1;  // the class of the first element
+  return part;
+}
+
+// C12: round trip every one of N values.
+template <class T, class F>
+Part c12_walk(const std::string& name, std::uint64_t N, F bits_at, int threads) {
+  using U = typename Traits<T>::U;
+  Part part;
+  part.name = name;
+  part.size = N;
+  std::vector<Acc> accs(static_cast<std::size_t>(threads));
+  const std::uint64_t chunk = (N + WALK_BLOCKS - 1) / WALK_BLOCKS;
+  const std::uint64_t sample_at = N / 2;
+  constexpr Kind K = Traits<T>::kind;
+  const U canon = static_cast<U>(g_canon_nan[K]);
+  parallel(threads, [&](int t) {
+    Acc& acc = accs[static_cast<std::size_t>(t)];
+   for (std::uint64_t blk = static_cast<std::uint64_t>(t); blk < WALK_BLOCKS;
+        blk += static_cast<std::uint64_t>(threads)) {
+    const std::uint64_t lo = std::min(N, chunk * blk);
+    const std::uint64_t hi = std::min(N, lo + chunk);
+    if (lo >= hi) break;
+    ReusedEncoders re;
+    std::uint64_t checks = 0, distinct = 0, calls = re.setup_calls;
+    U prev = (lo > 0) ? bits_at(lo - 1) : U{0};
+    for (std::uint64_t p = lo; p < hi; ++p) {
+      const U xb = bits_at(p);
+      const T x = from_bits<T>(xb);
+      distinct += (p == 0 || xb != prev) ? 1U : 0U;  // differs from its predecessor in the walk
+      prev = xb;
+      bool ok = true;
+      {
+        unodb::key_encoder e;
+        e.encode(x);
+        const auto kv = e.get_key_view();
+        ok = kv.size() == sizeof(T);
+        if (ok) {
+          unodb::key_decoder d{kv};
+          T y;
+          d.decode(y);
+          const U yb = to_bits(y);
+          if constexpr (std::is_floating_point_v<T>) {
+            if (x != x) ok = (y != y) && is_quiet_nan_bits(K, yb) && yb == canon;
+            else ok = (yb == xb);
+          } else {
+            ok = (yb == xb);
+          }
+          re.plain.reset();
+          re.plain.encode(std::uint64_t{0xA5A5A5A5A5A5A5A5ULL});
+          re.plain.reset();
+          re.plain.encode(x);
+          const auto k2 = re.plain.get_key_view();
+          ok = ok && k2.size() == kv.size() && std::memcmp(k2.data(), kv.data(), kv.size()) == 0;
+          re.grown.reset();
+          re.grown.encode(std::uint32_t{0x5A5A5A5AU});
+          re.grown.reset();
+          re.grown.encode(x);
+          const auto k3 = re.grown.get_key_view();
+          ok = ok && k3.size() == kv.size() && std::memcmp(k3.data(), kv.data(), kv.size()) == 0;
+          calls += 6;
+        } else {
+          calls += 1;
+        }
+      }
+      ++checks;
+      if (!ok || p == sample_at) {
+        if (!ok) ++acc.vtotal;
+        if ((!ok && acc.want_more()) || p == sample_at) {
+          Gen g;
+          g.want_sample = (p == sample_at);
+          const Val v = make_num(K, xb);
+          ReusedEncoders re2;
+          gen_check_roundtrip(v, re2, g);
+          if (p == sample_at) acc.sample = g.sample;
+          if (!ok) record_generic(acc, g, p, 0, "C12", kind_name[K], "rt:" + val_str(v));
+          else acc.transitions += g.calls;
+        }
+      }
+    }
+    acc.checks += checks;
+    acc.classes += distinct;
+    acc.transitions += calls;
+   }
+  });
+  merge_into(part, accs);
+  return part;
+}
+
+// ---------------------------------------------------------------------------
+// Tuple-valued domains (text, tuples, 8-bit all-pairs)
+// ---------------------------------------------------------------------------
+
+struct Domain {
+  std::string label;             // e.g. "text", "tuple-int32-text-int32"
+  std::vector<Tuple> el;
+  std::vector<std::string> enc;  // fresh-encoder bytes per element
+  std::vector<std::uint32_t> order;  // indices sorted in reference order
+  std::uint64_t classes{0};
+  std::uint64_t enc_calls{0};
+};
+
+void domain_encode(Domain& d, int threads) {
+  d.enc.assign(d.el.size(), {});
+  std::vector<Acc> accs(static_cast<std::size_t>(threads));
+  parallel(threads, [&](int t) {
+    std::uint64_t calls = 0;
+    for (std::size_t i = static_cast<std::size_t>(t); i < d.el.size();
+         i += static_cast<std::size_t>(threads))
+      d.enc[i] = encode_fresh(d.el[i], calls);
+    accs[static_cast<std::size_t>(t)].transitions = calls;
+  });
+  d.enc_calls = 0;
+  for (auto& a : accs) d.enc_calls += a.transitions;
+}
+
+// Sort in reference order (ties by index) and count the classes, cross-checking
+// the order reference against the separately written normalised equality.
+void domain_sort(Domain& d) {
+  d.order.resize(d.el.size());
+  for (std::size_t i = 0; i < d.el.size(); ++i) d.order[i] = static_cast<std::uint32_t>(i);
+  std::stable_sort(d.order.begin(), d.order.end(), [&](std::uint32_t a, std::uint32_t b) {
+    return ref_cmp_tuple(d.el[a], d.el[b]) < 0;
+  });
+  d.classes = d.el.empty() ? 0 : 1;
+  for (std::size_t i = 0; i + 1 < d.order.size(); ++i) {
+    const Tuple& a = d.el[d.order[i]];
+    const Tuple& b = d.el[d.order[i + 1]];
+    const int r = ref_cmp_tuple(a, b);
+    if (r > 0) die("domain_sort: not sorted");
+    if ((r == 0) != norm_equal_tuple(a, b)) die("reference order and normalised equality disagree");
+    if (r < 0) ++d.classes;
+  }
+}
+
+inline bool order_ok(const Domain& d, std::size_t i, std::size_t j) {
+  const int r = ref_cmp_tuple(d.el[i], d.el[j]);
+  const std::string& a = d.enc[i];
+  const std::string& b = d.enc[j];
+  return lib_compare(uc(a), a.size(), uc(b), b.size()) == r &&
+         indep_compare(uc(a), a.size(), uc(b), b.size()) == r;
+}
+inline bool prefix_ok(const Domain& d, std::size_t i, std::size_t j) {
+  const bool eq_ref = norm_equal_tuple(d.el[i], d.el[j]);
+  const std::string& a = d.enc[i];
+  const std::string& b = d.enc[j];
+  const bool eq_enc = (a == b);
+  if (eq_ref != eq_enc) return false;
+  if (!eq_ref && (proper_prefix(a, b) || proper_prefix(b, a))) return false;
+  return true;
+}
+
+enum class PairCheck { order, prefix };
+
+void pair_failed(const Domain& d, PairCheck pc, std::size_t i, std::size_t j, std::uint64_t k1,
+                 std::uint64_t k2, bool failed, bool sample, Acc& acc) {
+  if (failed) ++acc.vtotal;
+  if (!((failed && acc.want_more()) || sample)) return;
+  Gen g;
+  g.want_sample = sample;
+  if (pc == PairCheck::order) gen_check_order(d.el[i], d.el[j], g);
+  else gen_check_prefix(d.el[i], d.el[j], g);
+  if (sample) acc.sample = g.sample;
+  if (failed)
+    record_generic(acc, g, k1, k2, pc == PairCheck::order ? "C11" : "C15", d.label,
+                   std::string(pc == PairCheck::order ? "order:" : "pf:") + tuple_str(d.el[i]) +
+                       ":" + tuple_str(d.el[j]));
+  else
+    acc.transitions += g.calls;
+}
+
+// All ordered pairs (i, j), including i == j.
+Part all_pairs(const std::string& name, Domain& d, PairCheck pc, int threads) {
+  Part part;
+  part.name = name;
+  part.size = d.el.size();
+  part.transitions = d.enc_calls;
+  const std::size_t n = d.el.size();
+  std::vector<Acc> accs(static_cast<std::size_t>(threads));
+  const std::size_t si = n / 3, sj = (2 * n) / 3;
+  parallel(threads, [&](int t) {
+    Acc& acc = accs[static_cast<std::size_t>(t)];
+    for (std::size_t i = static_cast<std::size_t>(t); i < n; i += static_cast<std::size_t>(threads)) {
+      for (std::size_t j = 0; j < n; ++j) {
+        const bool ok = (pc == PairCheck::order) ? order_ok(d, i, j) : prefix_ok(d, i, j);
+        ++acc.checks;
+        const bool sample = (i == si && j == sj);
+        if (!ok || sample) pair_failed(d, pc, i, j, i, j, !ok, sample, acc);
+      }
+    }
+  });
+  merge_into(part, accs);
+  part.classes = d.classes;
+  return part;
+}
+
+// Adjacent pairs of the reference-sorted order (decides all pairs of a totally
+// ordered domain; equal neighbours cover the equivalence classes).
+Part sorted_adjacent(const std::string& name, Domain& d, PairCheck pc, int threads) {
+  Part part;
+  part.name = name;
+  part.size = d.el.size();
+  part.transitions = d.enc_calls;
+  const std::size_t n = d.order.size();
+  std::vector<Acc> accs(static_cast<std::size_t>(threads));
+  const std::size_t pairs = n ? n - 1 : 0;
+  parallel(threads, [&](int t) {
+    Acc& acc = accs[static_cast<std::size_t>(t)];
+    for (std::size_t p = static_cast<std::size_t>(t); p < pairs; p += static_cast<std::size_t>(threads)) {
+      const std::size_t i = d.order[p], j = d.order[p + 1];
+      const bool ok = (pc == PairCheck::order) ? order_ok(d, i, j) : prefix_ok(d, i, j);
+      ++acc.checks;
+      const bool sample = (p == pairs / 2);
+      if (!ok || sample) pair_failed(d, pc, i, j, p, 0, !ok, sample, acc);
+    }
+  });
+  merge_into(part, accs);
+  part.classes = d.classes;
+  return part;
+}
+
+// ---------------------------------------------------------------------------
+// Domain construction
+// ---------------------------------------------------------------------------
+
+template <class T>
+Domain full_numeric_domain() {  // every value of an 8-bit type
+  Domain d;
+  d.label = kind_name[Traits<T>::kind];
+  for (std::uint64_t r = 0; r < (std::uint64_t{1} << (8 * sizeof(T))); ++r)
+    d.el.push_back(Tuple{make_num(Traits<T>::kind, r)});
+  return d;
+}
+
+// Strings around the maximum length (lengths maxlen-2 .. maxlen+2).
+std::vector<std::string> around_maxlen_texts() {
+  std::vector<std::string> out;
+  const std::size_t M = MAXLEN;
+  for (std::size_t L = M - 2; L <= M + 2; ++L) {
+    out.emplace_back(L, '\x01');
+    out.emplace_back(L, '\xFF');
+    { std::string s(L, '\x01'); s[L - 1] = '\x02'; out.push_back(s); }   // differs in last byte only
+    { std::string s(L, '\x01'); s[L - 1] = '\xFF'; out.push_back(s); }
+    { std::string s(L, '\xFF'); s[L - 1] = '\xFE'; out.push_back(s); }
+    for (std::size_t p = M - 2; p <= M + 1; ++p) {  // differs only at offset p
+      if (p + 1 >= L) continue;                      // (last byte handled above)
+      std::string s(L, '\x01');
+      s[p] = '\x02';
+      out.push_back(s);
+    }
+    { std::string s(L, '\x01'); s[L - 1] = '\0'; out.push_back(s); }               // one trailing pad
+    { std::string s(L, '\x01'); s[L - 1] = '\0'; s[L - 2] = '\0'; out.push_back(s); }  // two
+  }
+  return out;
+}
+
+// All strings of length 0..6 over {01,02,FF}, each with 0..2 trailing pad
+// bytes, plus the strings around the maximum length.
+Domain text_domain() {
+  Domain d;
+  d.label = "text";
+  const char A[3] = {'\x01', '\x02', '\xFF'};
+  for (int len = 0; len <= 6; ++len) {
+    std::uint64_t total = 1;
+    for (int i = 0; i < len; ++i) total *= 3;
+    for (std::uint64_t idx = 0; idx < total; ++idx) {
+      std::string s;
+      std::uint64_t x = idx;
+      for (int i = 0; i < len; ++i) { s.push_back(A[x % 3]); x /= 3; }
+      for (int pad = 0; pad <= 2; ++pad)
+        d.el.push_back(Tuple{make_text(s + std::string(static_cast<std::size_t>(pad), '\0'))});
+    }
+  }
+  for (auto& s : around_maxlen_texts()) d.el.push_back(Tuple{make_text(s)});
+  for (const auto& t : d.el)
+    if (has_interior_zero(t[0].text)) die("text domain contains an interior zero byte");
+  return d;
+}
+
+template <class T> Val num_of(T v) { return make_num(Traits<T>::kind, to_bits(v)); }
+
+std::vector<Val> pool_short_text() {
+  return {make_text(""), make_text("\x01"), make_text(std::string("\x01\x00", 2)),
+          make_text("\x01\x01"), make_text("\x01\xFF"), make_text("\xFF")};
+}
+std::vector<Val> pool_long_text() {
+  return {make_text(std::string(MAXLEN - 1, '\x01')), make_text(std::string(MAXLEN, '\x01')),
+          make_text(std::string(MAXLEN + 1, '\x01'))};
+}
+std::vector<Val> pool_f32() {
+  using L = std::numeric_limits<float>;
+  return {num_of(-L::infinity()), num_of(-1.0F), num_of(-0.0F), num_of(0.0F), num_of(1.0F),
+          num_of(L::infinity()), make_num(K_F32, 0x7FC00000U), make_num(K_F32, 0xFF800001U)};
+}
+std::vector<Val> pool_f64() {
+  using L = std::numeric_limits<double>;
+  return {num_of(-L::infinity()), num_of(-0.0), num_of(0.0), num_of(1.0), num_of(L::infinity()),
+          make_num(K_F64, 0x7FF8000000000000ULL), make_num(K_F64, 0xFFF0000000000001ULL)};
+}
+
+Domain product_domain(const std::vector<std::vector<Val>>& pools) {
+  Domain d;
+  std::uint64_t total = 1;
+  for (const auto& p : pools) total *= p.size();
+  for (std::uint64_t idx = 0; idx < total; ++idx) {
+    Tuple t;
+    std::uint64_t x = idx;
+    for (const auto& p : pools) { t.push_back(p[x % p.size()]); x /= p.size(); }
+    for (const auto& v : t)
+      if (v.k == K_TEXT && has_interior_zero(v.text)) die("tuple text with interior zero");
+    d.el.push_back(std::move(t));
+  }
+  d.label = schema_label(d.el.front());
+  return d;
+}
+
+std::vector<Domain> tuple_domains() {
+  using I32 = std::numeric_limits<std::int32_t>;
+  using I64 = std::numeric_limits<std::int64_t>;
+  const std::vector<Val> i32 = {num_of(I32::min()), num_of(std::int32_t{-1}), num_of(std::int32_t{0}),
+                                num_of(std::int32_t{1}), num_of(I32::max())};
+  const std::vector<Val> i64 = {num_of(I64::min()), num_of(std::int64_t{-256}), num_of(std::int64_t{-1}),
+                                num_of(std::int64_t{0}), num_of(std::int64_t{1}), num_of(I64::max())};
+  const std::vector<Val> u8 = {num_of(std::uint8_t{0}), num_of(std::uint8_t{1}), num_of(std::uint8_t{0x7F}),
+                               num_of(std::uint8_t{0x80}), num_of(std::uint8_t{0xFF})};
+  const std::vector<Val> u16 = {num_of(std::uint16_t{0}), num_of(std::uint16_t{1}), num_of(std::uint16_t{0x00FF}),
+                                num_of(std::uint16_t{0x0100}), num_of(std::uint16_t{0xFFFF})};
+  const std::vector<Val> u64 = {num_of(std::uint64_t{0}), num_of(std::uint64_t{1}),
+                                num_of(std::uint64_t{0x00FFFFFFFFFFFFFFULL}),
+                                num_of(std::uint64_t{0x0100000000000000ULL}),
+                                num_of(std::uint64_t{0x8000000000000000ULL}),
+                                num_of(std::uint64_t{0xFFFFFFFFFFFFFFFFULL})};
+  const std::vector<Val> i8 = {num_of(std::int8_t{-128}), num_of(std::int8_t{-1}), num_of(std::int8_t{0}),
+                               num_of(std::int8_t{1}), num_of(std::int8_t{127})};
+  const std::vector<Val> i16 = {num_of(std::int16_t{-32768}), num_of(std::int16_t{-1}), num_of(std::int16_t{0}),
+                                num_of(std::int16_t{255}), num_of(std::int16_t{256}), num_of(std::int16_t{32767})};
+  const std::vector<Val> u32 = {num_of(std::uint32_t{0}), num_of(std::uint32_t{1}), num_of(std::uint32_t{0x7FFFFFFFU}),
+                                num_of(std::uint32_t{0x80000000U}), num_of(std::uint32_t{0xFFFFFFFFU})};
+  const auto st = pool_short_text();
+  auto st_long = st;
+  for (auto& v : pool_long_text()) st_long.push_back(v);
+  const std::vector<Val> st_tail = {make_text(""), make_text("\x01"), make_text("\xFF"),
+                                    make_text(std::string("\x01\x00\x00", 3))};
+  std::vector<Domain> out;
+  out.push_back(product_domain({i32, st, i32}));
+  out.push_back(product_domain({st_long, st}));
+  out.push_back(product_domain({pool_f32(), i64}));
+  out.push_back(product_domain({u8, u64}));
+  out.push_back(product_domain({st, u16, st_tail}));
+  out.push_back(product_domain({pool_f64(), st_long}));
+  out.push_back(product_domain({i8, i16, u32}));
+  return out;
+}
+
+// ---- C12 component sequences ----
+const std::vector<std::vector<Val>>& seq_tables() {
+  static const std::vector<std::vector<Val>> tab = [] {
+    std::vector<std::vector<Val>> t(K_COUNT);
+    const std::uint64_t pat[6] = {0x0000000000000000ULL, 0x0102030405060708ULL, 0x7FFFFFFFFFFFFFFFULL,
+                                  0x8000000000000000ULL, 0xFEDCBA9876543210ULL, 0xFFFFFFFFFFFFFFFFULL};
+    for (int k = K_I8; k <= K_U64; ++k)
+      for (const auto p : pat) t[static_cast<std::size_t>(k)].push_back(make_num(static_cast<Kind>(k), p >> (64 - 8 * kind_size[k])));
+    t[K_F32] = pool_f32();
+    t[K_F64] = pool_f64();
+    t[K_TEXT] = {make_text(""), make_text("\x01"), make_text("\x01\x02\xFF"),
+                 make_text(std::string(6, '\xFF')), make_text(std::string("\x01\x00", 2)),
+                 make_text(std::string(40, '\x02'))};
+    return t;
+  }();
+  return tab;
+}
+constexpr int SEQ_PATTERNS = 11 + 11 * 4;
+const int SEQ_LEADS[] = {-1, 0, 100, 200, 245, 246, 247, 248, 249, 250, 251, 252, 253, 254, 255, 256,
+                         300, 500, 505, 506, 507, 508, 509, 510, 511, 512, 1000, 1017, 1018, 1019,
+                         1020, 1021, 1022, 1023, 1024, 70000};
+constexpr int SEQ_NLEADS = static_cast<int>(sizeof(SEQ_LEADS) / sizeof(SEQ_LEADS[0]));
+constexpr int SEQ_MAXN = 80;
+
+// Sequence number `pattern` / `lead` / n (1..80 components in total).
+Tuple make_seq(int pattern, int lead_idx, int n) {
+  const auto& tab = seq_tables();
+  Tuple t;
+  const int lead = SEQ_LEADS[lead_idx];
+  if (lead >= 0) {
+    std::string s(static_cast<std::size_t>(lead), 'a');
+    if (lead > 0) s.back() = 'b';
+    t.push_back(make_text(std::move(s)));
+  }
+  const int strides[4] = {1, 2, 3, 5};
+  for (int i = 0; static_cast<int>(t.size()) < n; ++i) {
+    int kind;
+    if (pattern < 11) kind = pattern;
+    else {
+      const int q = pattern - 11;
+      kind = ((q % 11) + i * strides[q / 11]) % 11;
+    }
+    const auto& tb = tab[static_cast<std::size_t>(kind)];
+    t.push_back(tb[static_cast<std::size_t>(i * 7 + pattern * 3 + n) % tb.size()]);
+  }
+  return t;
+}
+
+std::uint64_t tuple_hash(const Tuple& t) {
+  std::uint64_t h = 0xcbf29ce484222325ULL;
+  auto mix = [&](std::uint64_t x) {
+    for (int i = 0; i < 8; ++i) { h ^= (x >> (8 * i)) & 0xFF; h *= 0x100000001b3ULL; }
+  };
+  for (const auto& v : t) {
+    mix(static_cast<std::uint64_t>(v.k) + 0x100);
+    if (v.k == K_TEXT) {
+      mix(v.text.size());
+      for (const char c : v.text) { h ^= static_cast<unsigned char>(c); h *= 0x100000001b3ULL; }
+    } else {
+      mix(v.bits);
+    }
+  }
+  return h;
+}
+
+Part c12_sequences(const std::string& name, int threads) {
+  Part part;
+  part.name = name;
+  const std::uint64_t total = static_cast<std::uint64_t>(SEQ_PATTERNS) * SEQ_NLEADS * SEQ_MAXN;
+  part.size = total;
+  std::vector<Acc> accs(static_cast<std::size_t>(threads));
+  std::vector<std::vector<std::uint64_t>> hashes(static_cast<std::size_t>(threads));
+  const std::uint64_t sample_at = total / 2 + 37;
+  parallel(threads, [&](int t) {
+    Acc& acc = accs[static_cast<std::size_t>(t)];
+    unodb::key_encoder reused;
+    for (std::uint64_t s = static_cast<std::uint64_t>(t); s < total; s += static_cast<std::uint64_t>(threads)) {
+      const int n = static_cast<int>(s % SEQ_MAXN) + 1;
+      const int lead = static_cast<int>((s / SEQ_MAXN) % SEQ_NLEADS);
+      const int pattern = static_cast<int>(s / SEQ_MAXN / SEQ_NLEADS);
+      const Tuple tup = make_seq(pattern, lead, n);
+      hashes[static_cast<std::size_t>(t)].push_back(tuple_hash(tup));
+      Gen g;
+      g.want_sample = (s == sample_at);
+      gen_check_seq(tup, reused, g);
+      ++acc.checks;
+      acc.transitions += g.calls;
+      if (s == sample_at) acc.sample = g.sample;
+      if (!g.out.empty()) {
+        ++acc.vtotal;
+        for (auto& v : g.out) {
+          if (!acc.want_more()) break;
+          v.k1 = s;
+          acc.viols.push_back(std::move(v));
+        }
+      }
+    }
+  });
+  merge_into(part, accs);
+  std::vector<std::uint64_t> all;
+  for (auto& h : hashes) all.insert(all.end(), h.begin(), h.end());
+  std::sort(all.begin(), all.end());
+  part.classes = static_cast<std::uint64_t>(std::unique(all.begin(), all.end()) - all.begin());
+  return part;
+}
+
+// ---------------------------------------------------------------------------
+// Property runners
+// ---------------------------------------------------------------------------
+
+struct Opt {
+  std::string tier, out, only, replay, property;
+  int threads{16};
+  bool has_replay{false};
+};
+
+bool want(const Opt& o, const std::string& name) {
+  if (o.only.empty() || o.only == name) return true;
+  return name.rfind(o.only + "/", 0) == 0;
+}
+
+template <class T>
+void c11_numeric(const Opt& o, std::vector<Part>& parts, bool full_chain) {
+  using U = typename Traits<T>::U;
+  const std::string base = kind_name[Traits<T>::kind];
+  if (full_chain) {
+    const std::string name = base + "/chain";
+    if (!want(o, name)) return;
+    parts.push_back(c11_walk<T>(name, full_count<T>(),
+                                [](std::uint64_t r) { return full_rank_to_bits<T>(r); }, o.threads));
+  } else {
+    const std::string name = base + "/sorted-adjacent";
+    if (!want(o, name)) return;
+    const std::vector<U> v = structured_domain<T>(o.tier == "thorough");
+    parts.push_back(c11_walk<T>(name, v.size(), [&v](std::uint64_t r) { return v[r]; }, o.threads));
+  }
+}
+
+void run_c11(const Opt& o, std::vector<Part>& parts) {
+  const bool thorough = (o.tier == "thorough");
+  auto pairs8 = [&](Domain d, const std::string& name) {
+    if (!want(o, name)) return;
+    domain_encode(d, o.threads);
+    domain_sort(d);
+    parts.push_back(all_pairs(name, d, PairCheck::order, o.threads));
+  };
+  pairs8(full_numeric_domain<std::int8_t>(), "int8/all-pairs");
+  pairs8(full_numeric_domain<std::uint8_t>(), "uint8/all-pairs");
+  c11_numeric<std::int16_t>(o, parts, true);
+  c11_numeric<std::uint16_t>(o, parts, true);
+  c11_numeric<std::int32_t>(o, parts, thorough);
+  c11_numeric<std::uint32_t>(o, parts, thorough);
+  c11_numeric<float>(o, parts, thorough);
+  c11_numeric<std::int64_t>(o, parts, false);
+  c11_numeric<std::uint64_t>(o, parts, false);
+  c11_numeric<double>(o, parts, false);
+  {
+    const std::string name = thorough ? "text/all-pairs" : "text/sorted-adjacent";
+    if (want(o, name)) {
+      Domain d = text_domain();
+      domain_encode(d, o.threads);
+      domain_sort(d);
+      parts.push_back(thorough ? all_pairs(name, d, PairCheck::order, o.threads)
+                               : sorted_adjacent(name, d, PairCheck::order, o.threads));
+    }
+  }
+  for (auto& d : tuple_domains()) {
+    const std::string name = d.label + "/all-pairs";
+    if (!want(o, name)) continue;
+    domain_encode(d, o.threads);
+    domain_sort(d);
+    parts.push_back(all_pairs(name, d, PairCheck::order, o.threads));
+  }
+}
+
+template <class T>
+void c12_numeric(const Opt& o, std::vector<Part>& parts, bool full) {
+  using U = typename Traits<T>::U;
+  const std::string base = kind_name[Traits<T>::kind];
+  if (full) {
+    const std::string name = base + "/all-values";
+    if (!want(o, name)) return;
+    parts.push_back(c12_walk<T>(name, full_count<T>(),
+                                [](std::uint64_t r) { return full_rank_to_bits<T>(r); }, o.threads));
+  } else {
+    const std::string name = base + "/structured";
+    if (!want(o, name)) return;
+    const std::vector<U> v = structured_domain<T>(o.tier == "thorough");
+    parts.push_back(c12_walk<T>(name, v.size(), [&v](std::uint64_t r) { return v[r]; }, o.threads));
+  }
+}
+
+void run_c12(const Opt& o, std::vector<Part>& parts) {
+  const bool thorough = (o.tier == "thorough");
+  c12_numeric<std::int8_t>(o, parts, true);
+  c12_numeric<std::uint8_t>(o, parts, true);
+  c12_numeric<std::int16_t>(o, parts, true);
+  c12_numeric<std::uint16_t>(o, parts, true);
+  c12_numeric<std::int32_t>(o, parts, thorough);
+  c12_numeric<std::uint32_t>(o, parts, thorough);
+  c12_numeric<float>(o, parts, thorough);
+  c12_numeric<std::int64_t>(o, parts, false);
+  c12_numeric<std::uint64_t>(o, parts, false);
+  c12_numeric<double>(o, parts, false);
+  if (want(o, "seq/growth")) parts.push_back(c12_sequences("seq/growth", o.threads));
+}
+
+// C15: size bound and overload agreement for every element of the domains.
+Part c15_outsize(const std::string& name, const std::vector<const Domain*>& doms, int threads) {
+  Part part;
+  part.name = name;
+  std::vector<const Tuple*> all;
+  for (const auto* d : doms) for (const auto& t : d->el) all.push_back(&t);
+  part.size = all.size();
+  std::vector<Acc> accs(static_cast<std::size_t>(threads));
+  parallel(threads, [&](int t) {
+    Acc& acc = accs[static_cast<std::size_t>(t)];
+    for (std::size_t i = static_cast<std::size_t>(t); i < all.size(); i += static_cast<std::size_t>(threads)) {
+      Gen g;
+      g.want_sample = (i == all.size() / 2);
+      gen_check_outsize(*all[i], g);
+      ++acc.checks;
+      acc.transitions += g.calls;
+      if (g.want_sample) acc.sample = g.sample;
+      if (!g.out.empty()) {
+        ++acc.vtotal;
+        for (auto& v : g.out) {
+          if (!acc.want_more()) break;
+          v.k1 = i;
+          acc.viols.push_back(std::move(v));
+        }
+      }
+    }
+  });
+  merge_into(part, accs);
+  part.classes = 0;  // classes are counted by the pair parts
+  return part;
+}
+
+std::vector<std::string> guard_contents() {
+  const std::size_t M = MAXLEN;
+  std::vector<std::string> c;
+  c.emplace_back(M, '\x01');
+  c.emplace_back(M, '\xFF');
+  { std::string s(M, '\x01'); s[M - 1] = '\x02'; c.push_back(s); }
+  { std::string s(M, '\x01'); s[M - 1] = '\0'; c.push_back(s); }
+  { std::string s(M, '\x01'); s[M - 1] = '\0'; s[M - 2] = '\0'; c.push_back(s); }
+  c.emplace_back(M, '\0');
+  return c;
+}
+const std::uint64_t GUARD_NOMINALS[] = {MAXLEN + 1, MAXLEN + 2, MAXLEN + 100, MAXLEN + 4096,
+                                        std::uint64_t{1} << 20, std::uint64_t{1} << 31};
+
+Part c15_guard(const std::string& name) {  // main thread only
+  Part part;
+  part.name = name;
+  Acc acc;
+  std::uint64_t idx = 0;
+  const auto contents = guard_contents();
+  part.size = contents.size();
+  for (const auto& c : contents)
+    for (const auto nominal : GUARD_NOMINALS)
+      for (int sv = 0; sv < 2; ++sv) {
+        Gen g;
+        g.want_sample = (idx == 0);
+        gen_check_guard(c, nominal, sv != 0, g);
+        ++acc.checks;
+        acc.transitions += g.calls;
+        if (g.want_sample) acc.sample = g.sample;
+        if (!g.out.empty()) {
+          ++acc.vtotal;
+          for (auto& v : g.out) {
+            if (!acc.want_more()) break;
+            v.k1 = idx;
+            acc.viols.push_back(std::move(v));
+          }
+        }
+        ++idx;
+      }
+  std::vector<Acc> accs;
+  accs.push_back(std::move(acc));
+  merge_into(part, accs);
+  return part;
+}
+
+void run_c15(const Opt& o, std::vector<Part>& parts) {
+  Domain text = text_domain();
+  std::vector<Domain> tuples = tuple_domains();
+  bool text_encoded = false;
+  if (want(o, "text/all-pairs")) {
+    domain_encode(text, o.threads);
+    domain_sort(text);
+    text_encoded = true;
+    parts.push_back(all_pairs("text/all-pairs", text, PairCheck::prefix, o.threads));
+  }
+  (void)text_encoded;
+  for (auto& d : tuples) {
+    const std::string name = d.label + "/all-pairs";
+    if (!want(o, name)) continue;
+    domain_encode(d, o.threads);
+    domain_sort(d);
+    parts.push_back(all_pairs(name, d, PairCheck::prefix, o.threads));
+  }
+  if (want(o, "text/output-size")) {
+    std::vector<const Domain*> doms{&text};
+    for (const auto& d : tuples) doms.push_back(&d);
+    parts.push_back(c15_outsize("text/output-size", doms, o.threads));
+  }
+  if (want(o, "text/guard-page")) parts.push_back(c15_guard("text/guard-page"));
+}
+
+// ---------------------------------------------------------------------------
+// Replay of one case
+// ---------------------------------------------------------------------------
+
+Part run_replay(const Opt& o) {
+  Part part;
+  part.name = "replay";
+  part.size = 1;
+  part.checks = 1;
+  const auto f = split(o.replay, ':');
+  Gen g;
+  g.want_sample = true;
+  const std::string& what = f[0];
+  auto need = [&](std::size_t n, const char* prop) {
+    if (f.size() != n) die("replay arg has the wrong number of fields: " + o.replay);
+    if (o.property != prop) die("replay arg '" + what + "' belongs to property " + prop);
+  };
+  if (what == "order") {
+    need(3, "C11");
+    gen_check_order(tuple_parse(f[1]), tuple_parse(f[2]), g);
+    part.size = 2;
+  } else if (what == "rt") {
+    need(2, "C12");
+    const Tuple t = tuple_parse(f[1]);
+    if (t.size() != 1) die("rt takes one component");
+    ReusedEncoders re;
+    gen_check_roundtrip(t[0], re, g);
+  } else if (what == "seq") {
+    need(2, "C12");
+    // same kind of reused encoder as the enumeration: one that grew earlier
+    unodb::key_encoder reused;
+    const std::string big(70000, 'a');
+    reused.encode_text(as_span(big.data(), big.size()));
+    gen_check_seq(tuple_parse(f[1]), reused, g);
+  } else if (what == "pf") {
+    need(3, "C15");
+    gen_check_prefix(tuple_parse(f[1]), tuple_parse(f[2]), g);
+    part.size = 2;
+  } else if (what == "osz") {
+    need(2, "C15");
+    gen_check_outsize(tuple_parse(f[1]), g);
+  } else if (what == "guard") {
+    need(4, "C15");
+    if (f[3] != "sv" && f[3] != "span") die("guard overload must be sv or span");
+    gen_check_guard(rle_parse(f[1]), std::strtoull(f[2].c_str(), nullptr, 10), f[3] == "sv", g);
+  } else {
+    die("unknown replay arg: " + o.replay);
+  }
+  part.transitions = g.calls;
+  part.classes = 1;
+  part.sample = g.sample;
+  part.vtotal = g.out.empty() ? 0 : 1;
+  part.viols = std::move(g.out);
+  return part;
+}
+
+const char* rule_of(const std::string& p) {
+  if (p == "C11")
+    return "Exhaustive enumeration, no sampling. Each part lists one finite domain. 'all-pairs': every ordered "
+           "pair (a,b) of the domain; 'chain': every value of the type walked in reference order, each value "
+           "against its successor; 'sorted-adjacent': the domain sorted by the reference order, each element "
+           "against its neighbour (decides all pairs because both orders are total and transitive; equal "
+           "neighbours cover equivalence classes such as the NaNs). A check requires sign(unodb::detail::compare("
+           "enc a, enc b)) == sign(independent bytewise compare) == reference compare (integer compare; IEEE "
+           "order with -0 < +0 and all NaNs equal and greatest; bytewise order of text cut to maxlen with trailing "
+           "zero padding removed; lexicographic on tuples). distinct_nontrivial = number of distinct "
+           "reference-order classes, counted per part as 1 + number of strictly ascending neighbour steps.";
+  if (p == "C12")
+    return "Exhaustive enumeration, no sampling. Numeric parts: every listed value x is encoded by a fresh encoder "
+           "(size must equal sizeof(T)), decoded (bits must equal x; any NaN must give a quiet NaN with the one "
+           "bit pattern that decode(encode(quiet_NaN)) gives), and re-encoded by an encoder reused after reset() "
+           "and by one that had grown to a heap buffer before reset() (bytes must equal the fresh ones). "
+           "seq/growth: 55 kind patterns x 36 leading text lengths x 1..80 components; fresh and reused encoder "
+           "output must equal the concatenation of individually encoded components and the decoder must return "
+           "every numeric component in order. distinct_nontrivial = number of distinct values (numeric parts: "
+           "neighbours of the duplicate-free sorted domain that differ; sequences: distinct content hashes).";
+  return "Exhaustive enumeration, no sampling. all-pairs parts: for every ordered pair of keys of one schema the "
+         "encodings are byte-equal exactly when the components are equal after normalisation (text cut to maxlen, "
+         "trailing zero padding removed; NaNs unified; -0 and +0 distinct), and otherwise neither encoding is a "
+         "proper prefix of the other. text/output-size: every key of every domain is at most sizeof(T) resp. "
+         "maxlen+3 bytes per component and both encode_text overloads agree. text/guard-page: maxlen bytes of "
+         "input end at a PROT_NONE page and are passed with a nominal length > maxlen; a fault is a violation. "
+         "distinct_nontrivial = number of distinct normalised-equality classes over the pair parts.";
+}
+
+void init_canonical_nans() {
+  {
+    unodb::key_encoder e;
+    e.encode(std::numeric_limits<float>::quiet_NaN());
+    unodb::key_decoder d{e.get_key_view()};
+    float y;
+    d.decode(y);
+    g_canon_nan[K_F32] = to_bits(y);
+  }
+  {
+    unodb::key_encoder e;
+    e.encode(std::numeric_limits<double>::quiet_NaN());
+    unodb::key_decoder d{e.get_key_view()};
+    double y;
+    d.decode(y);
+    g_canon_nan[K_F64] = to_bits(y);
+  }
+}
+
+[[noreturn]] void usage() {
+  std::fprintf(stderr,
+               "usage: codec --property C11|C12|C15 --tier quick|thorough --out <result.json>\n"
+               "             [--threads N] [--only <part>] [--replay-arg <string>]\n");
+  std::_Exit(2);
+}
+
+}  // namespace
+
+int main(int argc, char** argv) {
+  Opt o;
+  for (int i = 1; i < argc; ++i) {
+    const std::string a = argv[i];
+    auto next = [&]() -> std::string {
+      if (i + 1 >= argc) usage();
+      return argv[++i];
+    };
+    if (a == "--tier") o.tier = next();
+    else if (a == "--out") o.out = next();
+    else if (a == "--threads") o.threads = std::atoi(next().c_str());
+    else if (a == "--only") o.only = next();
+    else if (a == "--replay-arg") { o.replay = next(); o.has_replay = true; }
+    else if (a == "--property") o.property = next();
+    else usage();
+  }
+  if (o.tier != "quick" && o.tier != "thorough") usage();
+  if (o.property != "C11" && o.property != "C12" && o.property != "C15") usage();
+  if (o.out.empty()) usage();
+  if (o.threads < 1) o.threads = 1;
+  if (o.threads > 256) o.threads = 256;
+
+  init_canonical_nans();
+
+  std::vector<Part> parts;
+  if (o.has_replay) {
+    parts.push_back(run_replay(o));
+  } else if (o.property == "C11") {
+    run_c11(o, parts);
+  } else if (o.property == "C12") {
+    run_c12(o, parts);
+  } else {
+    run_c15(o, parts);
+  }
+  if (parts.empty()) die("no part matches --only " + o.only);
+
+  std::uint64_t evaluations = 0, classes = 0, states = 0, transitions = 0, vtotal = 0;
+  bool exhaustive = true;
+  std::vector<const Viol*> viols;
+  std::vector<std::string> samples;
+  for (const auto& p : parts) {
+    evaluations += p.checks;
+    classes += p.classes;
+    states += p.size;
+    transitions += p.transitions;
+    vtotal += p.vtotal;
+    exhaustive = exhaustive && p.exhaustive;
+    for (const auto& v : p.viols)
+      if (viols.size() < MAX_VIOL) viols.push_back(&v);
+  }
+  {  // up to 5 samples spread over the parts
+    std::vector<const Part*> with;
+    for (const auto& p : parts) if (!p.sample.empty()) with.push_back(&p);
+    const std::size_t want_n = std::min<std::size_t>(5, with.size());
+    for (std::size_t k = 0; k < want_n; ++k) {
+      const Part* p = with[(k * with.size()) / want_n];
+      samples.push_back(JObj{}.str("part", p->name).raw("case", p->sample).done());
+    }
+  }
+
+  std::string js = "{\n";
+  js += "  \"property\": " + jstr(o.property) + ",\n";
+  js += "  \"tier\": " + jstr(o.tier) + ",\n";
+  js += std::string("  \"exhaustive\": ") + (exhaustive ? "true" : "false") + ",\n";
+  js += "  \"evaluations\": " + std::to_string(evaluations) + ",\n";
+  js += "  \"distinct_nontrivial\": " + std::to_string(classes) + ",\n";
+  js += "  \"states\": " + std::to_string(states) + ",\n";
+  js += "  \"transitions\": " + std::to_string(transitions) + ",\n";
+  js += "  \"traces_validated_against_impl\": " + std::to_string(evaluations) + ",\n";
+  js += "  \"rule\": " + jstr(rule_of(o.property)) + ",\n";
+  js += "  \"maxlen\": " + std::to_string(MAXLEN) + ",\n";
+  if (o.has_replay) js += "  \"replay_arg\": " + jstr(o.replay) + ",\n";
+  if (!o.only.empty()) js += "  \"only\": " + jstr(o.only) + ",\n";
+  js += "  \"samples\": [";
+  for (std::size_t i = 0; i < samples.size(); ++i) js += std::string(i ? ",\n    " : "\n    ") + samples[i];
+  js += samples.empty() ? "],\n" : "\n  ],\n";
+  js += "  \"parts\": [";
+  for (std::size_t i = 0; i < parts.size(); ++i) {
+    const auto& p = parts[i];
+    js += std::string(i ? ",\n    " : "\n    ") +
+          JObj{}.str("name", p.name).num("size", p.size).num("checks", p.checks)
+              .boolean("exhaustive", p.exhaustive).num("classes", p.classes)
+              .num("transitions", p.transitions).num("violations", p.vtotal).done();
+  }
+  js += "\n  ],\n";
+  js += "  \"violations\": [";
+  for (std::size_t i = 0; i < viols.size(); ++i) {
+    const auto& v = *viols[i];
+    js += std::string(i ? ",\n    " : "\n    ") +
+          JObj{}.str("what", v.what).str("signature", v.sig).str("replay_arg", v.replay)
+              .raw("detail", v.detail.empty() ? "{}" : v.detail).done();
+  }
+  js += viols.empty() ? "],\n" : "\n  ],\n";
+  js += "  \"violations_total\": " + std::to_string(vtotal) + "\n}\n";
+
+  std::FILE* fp = std::fopen(o.out.c_str(), "w");
+  if (fp == nullptr) die("cannot open --out file " + o.out);
+  if (std::fwrite(js.data(), 1, js.size(), fp) != js.size()) die("short write");
+  if (std::fclose(fp) != 0) die("close failed");
+  return 0;
+}
